@@ -23,17 +23,15 @@ CLAIMS = {
             "parser-accepted, retro-inconsistent FEN). Both premises are kept by every generated move and null move and are evaluated (true) on every position of D the run uses. "
             "Also as a Permutation of lists (the rules list no move twice), and on all of D: in_D implies inv_b and ep_ok_b (DomainInv), so the statement written down at the start (movegen_exact_statement over in_D) is proved. The tie of the model to the Rust generator: the real generator (all entry points) against the extracted specification on generated positions of D (play-outs, suite FENs, "
             "Chess960/DFRC starts, pin/check/ep/castling/promotion templates): a test, not a proof.", "DESIGN.md section 6 C01 and section 9", ""),
-    "C02": ("proof", "Coq refinement proof makemove = Rules.apply for every move kind incl. castling in both geometries (stage decomposition, bit-by-bit board semantics, all nine state components) and for the null move; the executable premise and closure of D by differential model/implementation/Rules.apply on every legal move of sampled positions",
-            "PARTIAL proof. Proved: (a) a null move passes the turn, clears the ep target, keeps absolute placement and rights; (b) for every "
-            "move -- quiet, capture, double push, en passant, promotion with/without capture (test premises_b) and castling written "
-            "king-takes-rook in standard and Chess960 geometry (test cpremises_b) -- that passes refines_b = premises_b || cpremises_b, abs_state (makemove p m) = Rules.apply (abs_state p) (dec p m): placement, turn, four castling rights, ep target, "
-            "half-move clock, full-move number; (c) makemove is the composition of the stages the proof works on; (d) NO per-move premise: on every position passing the "
-            "executable test good_pos_b, EVERY move the generator emits refines Rules.apply (GenSane: the generator block by block, 'allowed' "
-            "never contains our men). good_pos_b and refines_b are evaluated (true) on every position / legal move the run generates. "
-            "(e) closure with NO legality premise: the invariant InvR (= Closure.Inv and ep_ok_b; executable invR_b) is kept by EVERY generated move "
-            "(a generated move never leaves the mover's king attacked: C01) and by the null move out of check, so the refinement holds along every "
-            "sequence of generated moves. invr_b is evaluated (true) on every position of D the run uses. The tie of the model to the code is the "
-            "correspondence run (all fields, both key variants, Rules.apply, play-outs with null moves).", "DESIGN.md section 6 C02", ""),
+    "C02": ("proof", "Coq refinement proof makemove = Rules.apply for every move kind incl. castling in both geometries (stage decomposition, bit-by-bit board semantics, all nine state components) and for the null move; closure of the invariant and of the executable domain D under every generated move and null move; differential model/implementation/Rules.apply on every legal move of sampled positions ties the model to the code",
+            "Proof on the model: (a) a null move passes the turn, clears the ep target, keeps absolute placement and rights; (b) abs_state (makemove p m) = Rules.apply (abs_state p) (dec p m) "
+            "-- placement, turn, four castling rights, ep target, half-move clock, full-move number -- for every move passing the executable test refines_b and, with NO per-move premise, for "
+            "EVERY move the generator emits on a position passing good_pos_b; (c) makemove is the composition of the stages the proof works on; (d) closure: the invariant InvR (executable invR_b) "
+            "is kept by every generated move (no legality premise: a generated move never leaves the mover's king attacked, C01) and by the null move out of check; and the domain D itself "
+            "(executable in_D: validate's tests, consistent boards, rights geometry, key, en-passant retro-consistency, legal material) is closed under every generated move and null move "
+            "(C02_every_reachable_position_is_in_D), with in_D => invr_b; so the refinement, 'structurally valid, side that moved not in check' and the key invariant hold on every position "
+            "reached by play from a position of D. The tie of the model to the code is the correspondence run (all fields, both key variants, Rules.apply, play-outs with null moves).",
+            "DESIGN.md section 6 C02 and section 9", ""),
     "C03": ("proof", "Coq lemmas on the root (answer = last pv, best move of the root loop is legal, ordering a permutation) + searches over limits/histories/tables checked against the rules",
             "Proved on the model with no hypothesis left: for every stop predicate (every limit, zero budgets included), every history and every table "
             "satisfying TBnd (stored scores within the mate bounds: true of new/cleared/resized tables, kept by every search), root answers with a move "
